@@ -52,6 +52,16 @@ def strategy(tier):
     return _case()
 
 
+def _bump(x, pick):
+    """a different float that a tolerance-based comparison would take for the same one: relative 4e-6, or 1-4 units in the last place"""
+    import math
+    if (pick // 7) % 3 == 0:
+        for _ in range(pick % 4 + 1):
+            x = math.nextafter(x, math.inf)
+        return x
+    return x * (1 + 4e-6)
+
+
 def _edit_terms(ts, edit, pick, delta):
     """returns (new term data list, differs: True|False|None, how)"""
     ts = _copy.deepcopy(ts)
@@ -66,10 +76,10 @@ def _edit_terms(ts, edit, pick, delta):
     if edit == "coef-tiny":
         # a different number that a tolerance-based comparison would take for the same one
         v = sorted(ts[i][0])[pick % len(ts[i][0])]
-        ts[i][0][v] = ts[i][0][v] * (1 + 4e-6)
+        ts[i][0][v] = _bump(ts[i][0][v], pick)
         return ts, True
     if edit == "const-tiny":
-        ts[i][1] = ts[i][1] * (1 + 4e-6) if ts[i][1] != 0 else 4e-9
+        ts[i][1] = _bump(ts[i][1], pick) if ts[i][1] != 0 else 4e-9
         return ts, True
     if edit == "neg-zero":
         if ts[i][1] == 0:
